@@ -16,7 +16,7 @@ from mc import core
 
 PROPERTY = 'C05'
 GUARD = ['numqi.entangle', 'numqi.utils']  # argument-immutability oracle (mc.seams.ImmutabilityGuard)
-GUARD_LAYOUT = ['numqi.entangle', 'numqi.utils']  # memory-layout metamorphic oracle (same wrapper)
+GUARD_LAYOUT = ['numqi.entangle._misc', 'numqi.entangle.eof', 'numqi.entangle.measure.get_gme_2qubit', 'numqi.entangle.ppt.is_ppt', 'numqi.entangle.ppt.is_generalized_ppt', 'numqi.utils']  # memory-layout metamorphic oracle: eigenvalue-based functions only (SDP / LP optima differ by solver tolerance)
 LEVEL = 'model_checking'
 RULE = ('state = separable density matrix reached by mix-in events from a pure product state of the local alphabets (key = rounded '
         'matrix); all event sequences up to the depth bound are enumerated; transition = evaluation of one criterion on one state; '
